@@ -1,12 +1,12 @@
-\* thorough: n=4, t=2, q=7, <= 2 deviations, every interleaving and input shape
+\* thorough: n=4, t=2, q=7, <= 2 deviations, every interleaving and input shape (no expiry here: see the exp facet)
 CONSTANTS
   MaxN = 4
   NSet = {4}
   TSet = {2}
   Q = 7
-  Periods = {4}
+  Periods = {9}
   PolyMode = "one"
-  MaxH = 6
+  MaxH = 5
   MaxDev = 2
 INIT Init
 NEXT MCNext
